@@ -240,9 +240,12 @@ func ZZ_C02_Compile() {
 			{Cmd: "item {{.ITEM}}", For: &ast.For{List: []any{x0, x1, x2}}, IgnoreError: ign, Silent: sil},
 			{Task: "callee", Vars: callVars},
 			{Cmd: "m {{.ITEM.OS}} {{.ITEM.ARCH}}", For: &ast.For{Matrix: matrix}},
-			{Cmd: "last"},
+			{Cmd: "last {{.ITEM}}"}, // the iterator of the loops before it is gone again
 			// a call per loop item: the item reaches the callee as text and as a ref
 			{Task: "callee", Vars: loopVars, For: &ast.For{List: []any{x0, x1}}},
+			// an iterator named like a variable of the task hides it inside the loop only
+			{Cmd: "n {{.NAME}}", For: &ast.For{List: []any{x0, x1}, As: "NAME"}},
+			{Cmd: "own {{.NAME}}"},
 		},
 		Deps: []*ast.Dep{{Task: "d-{{.ITEM}}", For: &ast.For{List: []any{x0, x1}}}},
 	}
@@ -257,6 +260,7 @@ func ZZ_C02_Compile() {
 	tf := &ast.Taskfile{Vars: ast.NewVars(), Env: ast.NewVars(), Tasks: ast.NewTasks(), Run: "always", Method: "checksum"}
 	tf.Vars.Set("OSLIST", ast.Var{Value: []any{o0, o1}})
 	tf.Vars.Set("ARCHLIST", ast.Var{Value: []any{a0, a1}})
+	t.Vars.Set("NAME", ast.Var{Value: "outer"})
 	tf.Tasks.Set("t", t)
 	tf.Tasks.Set("callee", callee)
 	zzRun = zzEchoShell
@@ -269,7 +273,7 @@ func ZZ_C02_Compile() {
 	if err != nil || ct == nil {
 		return
 	}
-	want := []string{"first", "item " + x0, "item " + x1, "item " + x2, "", "m " + o0 + " " + a0, "m " + o0 + " " + a1, "m " + o1 + " " + a0, "m " + o1 + " " + a1, "last", "", ""}
+	want := []string{"first", "item " + x0, "item " + x1, "item " + x2, "", "m " + o0 + " " + a0, "m " + o0 + " " + a1, "m " + o1 + " " + a0, "m " + o1 + " " + a1, "last ", "", "", "n " + x0, "n " + x1, "own outer"}
 	zz.Assert(len(ct.Cmds) == len(want), "for-expansion/number-of-commands")
 	if len(ct.Cmds) == len(want) {
 		for k := range want {
@@ -689,7 +693,9 @@ func ZZ_C07_Concurrency() {
 	if zz.Param("failing", 0) > 0 {
 		failing = zzFailingDefault(g)
 	}
+	zzProbeSleep = true
 	tf := g.build(failing)
+	zzProbeSleep = false
 	n := zz.Choose("concurrency", zz.Param("maxconc", 2)+1)
 	tr, err := zzExec(g, tf, zzRunOpts{Concurrency: n, Parallel: par}, roots...)
 	// (a state with unfinished goroutines and nothing enabled is reported by the engine as a deadlock)
